@@ -74,7 +74,9 @@ def setup():
 def _cs(W, sizes, dem, rng, **kw):
     c = {"kind": "cs", "W": W, "sizes": list(sizes), "dem": list(dem),
          "bp_max_iter": rng.choice([50, 50, 50, 1000, None, None, 3, 1]),
-         "bp_max_nodes": rng.choice([None] * 8 + [1, 2, 4, 8]), "float_width": rng.random() < 0.15}
+         "bp_max_nodes": rng.choice([None] * 8 + [1, 2, 4, 8]), "float_width": rng.random() < 0.15,
+         # roll_width is a float in the API: a fractional width with integer pieces is the same problem as its floor
+         "frac": rng.choice([0.5, 0.75, 0.99, 0.25, 0.6]) if rng.random() < 0.2 else 0}
     c.update(kw)
     return c
 
@@ -447,6 +449,8 @@ def _run(case, obs):
             universe = pats
             opt = _orc.min_cover(_orc.maximal_patterns(pats), dem)
         width = float(W) if case.get("float_width") else W
+        if case.get("frac"):
+            width = W + case["frac"]
 
         def fits(col, sizes=sizes, W=W):
             w = sum(a * s for a, s in zip(col, sizes))
